@@ -706,7 +706,7 @@ def hub_cases(rng, tier, extended=False):
             qs = [q for q in qs if q['kind'] != 'grad' and not (q['kind'] == 'e2v' and q['self_loop'])]
         out.append({'mesh': mesh, 'queries': qs, 'oracle_only': True, 'stagewise': False})
     if tier == 'thorough':
-        for kind in kinds[:2]:
+        for kind in kinds[:1]:
             mesh = gen.gen_hub(rng, kind, rng.randint(129, 132), n_unref=0)
             out.append({'mesh': mesh, 'full_model': True,
                         'queries': [{'kind': 'lap', 'nodal': True, 'order1': False},
@@ -840,11 +840,11 @@ def changed_graph_bodies():
     return sorted(k for k, v in GRAPH_BODIES.items() if found.get(k) != v)
 
 
-STAGE_BUDGET = {'quick': 60000, 'thorough': 900000}
+STAGE_BUDGET = {'quick': 60000, 'thorough': 300000}
 
 
 def gen_cases(ctx):
-    n_mesh = 60 if ctx.tier == 'quick' else 450
+    n_mesh = 60 if ctx.tier == 'quick' else 360
     cases = []
     kinds = list(gen.KINDS) + list(gen.NONCONFORMING)
     for i in range(n_mesh):
